@@ -447,3 +447,117 @@ func mapWith(m map[string]string, k, v string) map[string]string {
 	o[k] = v
 	return o
 }
+
+// ---- C20: reads are spread over all healthy replicas ----
+
+func init() {
+	register(&Profile{Name: "C20", Prop: "C20", Gen: genC20, Check: checkC20})
+}
+
+func genC20(g *Gen) {
+	p := g.Plan
+	m := g.R.Range(3, 4)
+	r := g.R.Range(2, 4)
+	base := g.StdTopology(m, r, false)
+	p.Topos = []Topology{base}
+	p.Proxy.DisableSlave = false
+	p.Proxy.ServerConns = g.R.Range(1, 2)
+	p.Proxy.BufCap = 65536
+	g.cleanKernel()
+	p.Sched.MaxSteps = 20000
+	p.Sched.ChunkPct = 10
+	if p.Variant == "banned" {
+		// one replica refuses connections for the whole run: nothing is asserted about it
+		var reps []string
+		for _, n := range base.Nodes {
+			if !n.Master {
+				reps = append(reps, n.Addr)
+			}
+		}
+		p.Events = append(p.Events, Event{Kind: "node-down", When: When{Step: 1}, Node: reps[g.R.Intn(len(reps))]})
+	}
+	reads := []string{"get", "strlen", "exists", "ttl", "type", "hgetall", "llen", "scard", "zcard", "smembers", "hlen", "pttl"}
+	nc := g.R.Range(1, 3)
+	perMaster := 300
+	for ci := 0; ci < nc; ci++ {
+		cp := ClientPlan{Addr: clientAddr(ci), Mode: "pipeline", CloseAfterSent: -1, CloseAfterReplies: -1, StartStep: g.R.Intn(5)}
+		ri := 0
+		for mi := 0; mi < m; mi++ {
+			rg := base.Nodes[mi].Slots[0]
+			for k := 0; k < perMaster/nc+1; k++ {
+				tok := Tok(ci, ri)
+				slot := g.R.Range(rg[0], rg[1])
+				if g.R.Pct(10) {
+					cp.Reqs = append(cp.Reqs, g.Single(tok, "set", Key(tok, 0, slot, ""), "v"))
+				} else {
+					cp.Reqs = append(cp.Reqs, g.Single(tok, g.R.Pick(reads), Key(tok, 0, slot, "")))
+				}
+				ri++
+			}
+		}
+		// interleave the masters instead of visiting them one after the other
+		for i := len(cp.Reqs) - 1; i > 0; i-- {
+			j := g.R.Intn(i + 1)
+			cp.Reqs[i], cp.Reqs[j] = cp.Reqs[j], cp.Reqs[i]
+		}
+		p.Clients = append(p.Clients, cp)
+	}
+}
+
+func checkC20(d *Driver, res *Result) {
+	t := &d.P.Topos[0]
+	d.StdReplyCheck("C20", Relax{AllowProxyError: d.P.Variant == "banned"})
+	readsAt := map[string]int{}
+	readsPerMaster := map[string]int{}
+	for _, r := range d.C.Log {
+		if r.Kind != "data" {
+			continue
+		}
+		node := t.ByAddr(r.Node)
+		if node == nil {
+			continue
+		}
+		if !IsReadCmd(r.Name) {
+			if !node.Master {
+				d.violate("C20", "write-at-replica", map[string]string{}, "%s arrived at replica %s", r.Name, r.Node)
+				return
+			}
+			continue
+		}
+		readsAt[r.Node]++
+		if node.Master {
+			readsPerMaster[node.ID]++
+		} else {
+			readsPerMaster[node.MasterID]++
+		}
+	}
+	down := map[string]bool{}
+	for _, e := range d.P.Events {
+		if e.Kind == "node-down" {
+			down[e.Node] = true
+		}
+	}
+	starved := 0
+	for _, n := range t.Nodes {
+		if n.Master || down[n.Addr] {
+			continue
+		}
+		if readsPerMaster[n.MasterID] < 200 {
+			continue // not a sufficiently long run of reads for this master
+		}
+		if readsAt[n.Addr] == 0 {
+			starved++
+			if starved == 1 {
+				d.violate("C20", "replica-never-read", map[string]string{}, "master %s received %d reads for its slots, its healthy replica %s served none of them (reads per node: %v)",
+					n.MasterID[len(n.MasterID)-4:], readsPerMaster[n.MasterID], n.Addr, readsAt)
+			}
+		}
+	}
+	total := 0
+	for _, v := range readsPerMaster {
+		total += v
+	}
+	d.Counters["c20_reads"] = total
+	res.Nontrivial = total > 400
+	res.Sample = fmt.Sprintf("%d masters x %d replicas, %d reads; reads per node %v", countMasters(t), (len(t.Nodes)-countMasters(t))/countMasters(t), total, readsAt)
+}
